@@ -262,6 +262,8 @@ pub struct Proc {
     pub thread: Option<std::thread::JoinHandle<()>>,
     pub cap_out: Option<usize>,
     pub cap_err: Option<usize>,
+    /// largest single allocation request made by the process's own code
+    pub alloc_peak: usize,
 }
 
 #[derive(Clone, Debug, Default)]
@@ -916,6 +918,7 @@ pub fn syscall<T: Send + 'static>(
     enabled: impl Fn(&State) -> bool + Send + Sync + 'static,
     exec: impl FnOnce(&mut State, &mut OpRec) -> T + Send + Sync + 'static,
 ) -> Result<T, Dead> {
+    let _pause = crate::alloc::pause();
     let c = ctx();
     let sh = &*c.shared;
     let pid = c.pid;
@@ -959,6 +962,7 @@ pub fn syscall<T: Send + 'static>(
 /// Effect applied immediately at the caller's current instant (used from Drop impls,
 /// where parking is not possible for async code). Recorded in the trace.
 pub fn direct<T>(kind: OpKind, f: impl FnOnce(&mut State, &mut OpRec) -> T) -> Option<T> {
+    let _pause = crate::alloc::pause();
     let c = try_ctx()?;
     let sh = &*c.shared;
     let mut st = lock(sh);
@@ -973,6 +977,7 @@ pub fn direct<T>(kind: OpKind, f: impl FnOnce(&mut State, &mut OpRec) -> T) -> O
 
 /// Read-only peek at the state (no scheduling point, not traced).
 pub fn peek<T>(f: impl FnOnce(&mut State, Pid) -> T) -> T {
+    let _pause = crate::alloc::pause();
     let c = ctx();
     let mut st = lock(&c.shared);
     f(&mut st, c.pid)
@@ -1012,6 +1017,7 @@ impl<T: Send + 'static> AsyncOp<T> {
 
     pub fn poll_op(&mut self, cx: &mut std::task::Context<'_>) -> std::task::Poll<Result<T, Dead>> {
         use std::task::Poll;
+        let _pause = crate::alloc::pause();
         match self {
             AsyncOp::New {
                 kind,
@@ -1114,6 +1120,7 @@ impl<T> Unpin for AsyncOp<T> {}
 /// Called by the tokio driver when the runtime is quiescent: park this process, let the
 /// scheduler run, and when the baton comes back wake whatever completed.
 pub fn park_async() -> Result<(), Dead> {
+    let _pause = crate::alloc::pause();
     let c = ctx();
     let sh = &*c.shared;
     let pid = c.pid;
@@ -1201,6 +1208,7 @@ pub fn create_proc(st: &mut State, sh: &Arc<Shared>, spec: SpawnSpec) -> Pid {
             Fd::Capture(i) => Some(i),
             _ => None,
         },
+        alloc_peak: 0,
     };
     // the Start op: always enabled, no effect — makes process start a scheduling choice
     p.pending.push(PendingOp {
@@ -1237,6 +1245,7 @@ pub fn create_proc(st: &mut State, sh: &Arc<Shared>, spec: SpawnSpec) -> Pid {
             let res = if killed_before_start {
                 Err(Box::new(Killed) as Box<dyn Any + Send>)
             } else {
+                crate::alloc::arm();
                 std::panic::catch_unwind(std::panic::AssertUnwindSafe(program))
             };
             let abort = ABORT_MSG.with(|m| m.borrow_mut().take());
@@ -1261,7 +1270,9 @@ pub fn create_proc(st: &mut State, sh: &Arc<Shared>, spec: SpawnSpec) -> Pid {
 }
 
 pub fn proc_exit(sh: &Arc<Shared>, pid: Pid, kind: ExitKind) {
+    let peak = crate::alloc::disarm();
     let mut st = lock(sh);
+    st.procs[pid as usize].alloc_peak = peak;
     let was_killed = st.procs[pid as usize].killed;
     let kind = if was_killed && !matches!(kind, ExitKind::Aborted(_)) {
         ExitKind::Killed
@@ -1298,6 +1309,7 @@ pub struct ProcSummary {
     pub stdout: Vec<u8>,
     pub stderr: Vec<u8>,
     pub counts: [u32; NCLASS],
+    pub alloc_peak: usize,
 }
 
 impl ProcSummary {
@@ -1451,6 +1463,7 @@ impl Sim {
                 stdout: Vec::new(),
                 stderr: Vec::new(),
                 counts: p.counts,
+                alloc_peak: p.alloc_peak,
             })
             .collect::<Vec<_>>();
         let mut out = Outcome {
